@@ -612,6 +612,54 @@ func suiteSrt(R *runner, r *rng) {
 		R.countN("srt.cues", len(cues))
 		R.add(o)
 	}
+	// documents longer than the scanner's 4096-byte buffer, CRLF and CR line ends, with a line break
+	// placed exactly on the buffer boundary (offsets 4095/4096) inside a cue and between cues
+	for c := 0; c < 24; c++ {
+		eol := "\r\n"
+		if c%4 == 3 {
+			eol = "\r"
+		}
+		var cues []srtCue
+		var t int64
+		for i := 0; i < 120; i++ {
+			t += 2e9
+			cues = append(cues, srtCue{Start: t, End: t + 1e9, Lines: [][]srtRun{{{Text: fmt.Sprintf("line one of cue %d", i)}}, {{Text: "second line"}}, {{Text: "third"}}}})
+		}
+		build := func() string {
+			var b strings.Builder
+			for i, cu := range cues {
+				b.WriteString(strconv.Itoa(i+1) + eol + fmtStamp(newRng(1), cu.Start, ",") + " --> " + fmtStamp(newRng(1), cu.End, ",") + eol)
+				for _, l := range cu.Lines {
+					b.WriteString(l[0].Text + eol)
+				}
+				b.WriteString(eol)
+			}
+			return b.String()
+		}
+		// find the first line break at or after the target offset and pad the first cue so that it lands on it
+		target := 4095 + (c%3 - 1) // 4094, 4095, 4096
+		doc := build()
+		k := strings.Index(doc[target-200:], eol) + target - 200
+		for tries := 0; tries < c/3; tries++ { // successive breaks: inside a cue, after the last text line, the blank line
+			k = strings.Index(doc[k+len(eol):], eol) + k + len(eol)
+		}
+		if k > target {
+			k2 := strings.LastIndex(doc[:target], eol)
+			_ = k2
+		}
+		pad := target - k
+		for pad < 0 {
+			pad += 1
+			k--
+		}
+		if k != target {
+			cues[0].Lines[0][0].Text += strings.Repeat("x", (target-k+4096)%4096)
+			doc = build()
+		}
+		o := srtReadObs(doc, cues, "srt.read.bufboundary", map[string]interface{}{"eol": eol, "len": len(doc), "byte_at_4095": doc[4095], "note": "line break aligned on the 4096-byte buffer boundary"})
+		o.NT = true
+		R.add(o)
+	}
 	// repository samples
 	for _, f := range []string{"example-in.srt", "example-in-styled.srt", "example-in-carriage-return.srt", "example-in-html-entities.srt", "missing-sequence-in.srt", "example-in-non-utf8.srt", "example-out.srt", "example-out-styled.srt"} {
 		if b, err := readRepoFile("testdata/" + f); err == nil {
